@@ -356,7 +356,7 @@ impl Context {
         words.into_iter()
     }
 
-    pub fn print_info_for_keyword(&mut self, keyword: &str) -> Markup {
+    pub fn print_info_for_keyword(&self, keyword: &str) -> Markup {
         fn url_encode(s: &str) -> CompactString {
             let mut out = CompactString::with_capacity(s.len());
             for c in s.chars() {
@@ -591,7 +591,9 @@ impl Context {
                     + m::nl();
             }
 
-            if let Ok((_, results)) = self.interpret(keyword, CodeSource::Internal) {
+            // Evaluate the identifier in a copy of the session: looking something up
+            // must not change the session (e.g. the value and type of `ans`).
+            if let Ok((_, results)) = self.clone().interpret(keyword, CodeSource::Internal) {
                 help += m::nl()
                     + results.to_markup(
                         None,
